@@ -474,7 +474,36 @@ void group_op(Ctx& cx, G g, Flat)
         break;
     }
     case G_ITER:
-        for(auto it = g.begin(); it != g.end(); ++it) record_entry(cx, *it);
+    {
+        // alternate ++it / it++, and look at each entry through operator* and through operator->
+        int k = 0;
+        for(auto it = g.begin(); it != g.end(); k++)
+        {
+            record_entry(cx, *it);
+            auto proxy = it.operator->();
+            const auto* ep = proxy.operator->();
+            if(cx.off(sbepp::addressof(*ep)) != cx.rs->events.back().addr_off) cx.rs->events.back().addr_off = -7777777; // operator-> disagrees with operator*
+            if(k % 2)
+                it++;
+            else
+                ++it;
+        }
+        break;
+    }
+    case G_RESIZE_THEN_LAST:
+        if constexpr(!is_ro<G>())
+        {
+            const size_type n0 = g.size();
+            if(n0 < G::max_size())
+            {
+                g.resize((size_type)(n0 + 1));
+                size_type i = 0;
+                for(auto it = g.begin(); it != g.end(); ++it, ++i)
+                    if(i == n0) record_entry(cx, *it);
+            }
+        }
+        else
+            rs.unsupported = true;
         break;
     case G_ITER_INDEXED:
         if constexpr(Flat::value)
@@ -613,6 +642,16 @@ void data_op(Ctx& cx, D d)
         d.assign_string(cstr);
         break;
     }
+    case D_ASSIGN_STRING_LONG:
+        if constexpr(!is_ro<D>())
+        {
+            static const char long_text[] = "0123456789012345678901234567890123456789";
+            const char* cstr = long_text;
+            if(40 <= (u64)D::max_size()) d.assign_string(cstr);
+        }
+        else
+            rs.unsupported = true;
+        break;
     case D_CLEAR:
         if constexpr(!is_ro<D>())
             d.clear();
@@ -1297,7 +1336,9 @@ void message_op(Ctx& cx, const SchemaShape& sh)
         if(rq.arg & 1)
         {
             CMV cm{const_cast<const ByteT*>(p), rq.n};
-            auto c = sbepp::init_const_cursor(cm);
+            // a const cursor: either made for the const view, or converted from a mutable one
+            auto c0 = sbepp::init_cursor(m);
+            sbepp::cursor<const ByteT> c = (rq.arg & 8) ? sbepp::cursor<const ByteT>{c0} : sbepp::init_const_cursor(cm);
             rs.cursor_off = cx.off(c.pointer());
             cursor_level<L>(cx, cm, c, ss, 0);
             rs.cursor_off = cx.off(c.pointer());
@@ -1323,11 +1364,21 @@ void message_op(Ctx& cx, const SchemaShape& sh)
     }
     case M_VISIT_FULL:
     {
-        CMV cm{const_cast<const ByteT*>(p), rq.n};
-        auto c = sbepp::init_const_cursor(cm);
         Recorder<TagId> r{&cx, rq.stop_at, true};
-        sbepp::visit(cm, c, r);
-        rs.cursor_off = cx.off(c.pointer());
+        if(rq.arg & 1)
+        {
+            // through the mutable view with a mutable cursor
+            auto c = sbepp::init_cursor(m);
+            sbepp::visit(m, c, r);
+            rs.cursor_off = cx.off(c.pointer());
+        }
+        else
+        {
+            CMV cm{const_cast<const ByteT*>(p), rq.n};
+            auto c = sbepp::init_const_cursor(cm);
+            sbepp::visit(cm, c, r);
+            rs.cursor_off = cx.off(c.pointer());
+        }
         rs.bits = (u64)r.ticks;
         break;
     }
